@@ -171,6 +171,26 @@ def subjectToAclUnfixed (f : Frame) : Option Bool :=
     | some (_, d) => some (!(d == arpPort))
   else some true
 
+/-- `Router.check_send_frame_to_session_manager` (inherited unchanged by `Firewall`) as a function of the three facts it
+reads: `own` = the destination address is the address of one of the device's interfaces (enabled or not), `icmp` = the
+frame carries an ICMP packet, `isOpen` = its TCP/UDP destination port is in `software_manager.get_open_ports()`.
+Tied to the source expression (Python's own parse, hence Python's precedence) by `C06_gen_toSession`. -/
+def toSessionDecision (own icmp isOpen : Bool) : Bool := own && (icmp || isOpen)
+
+/-- `Router.ip_is_router_interface(ip)` with `enabled_only=False` -/
+def isOwnIp (s : Node W) (ip : Ip) : Bool := s.ifaces.any (fun j => j.ip == ip)
+
+/-- `dst_port in open_ports`, where `dst_port` is the TCP / UDP destination port and `None` otherwise -/
+def dstPortOpen (openPorts : List Nat) (f : Frame) : Bool :=
+  match f.pkt.proto, f.pkt.ports with
+  | .tcp, some (_, d) => openPorts.contains d
+  | .udp, some (_, d) => openPorts.contains d
+  | _, _ => false
+
+/-- the decision as the code takes it; the set of open ports is read from the (opaque) software state -/
+def stdToSession (openPorts : Node W → List Nat) (s : Node W) (f : Frame) : Bool :=
+  toSessionDecision (isOwnIp s f.pkt.dstIp) (f.pkt.proto == .icmp) (dstPortOpen (openPorts s) f)
+
 /-- After the verdict: learn, then session manager or `process_frame`. -/
 def permitted (soft : Soft W) (s : Node W) (p : Nat) (f : Frame) : Script W :=
   let s1 := { s with sw := soft.learn s p f }
@@ -213,6 +233,9 @@ def entryCalls : FwEntry → List Callee
   | .intIn => [.process]
   | .dmzIn => [.process]
 
+/-- `_process_dmz_outbound_frame` drops a layer-2 broadcast that is not for the firewall itself before the look-ups -/
+def dmzOutDropsBroadcast : Bool := true
+
 /-- 0-based ports: `EXTERNAL_PORT_ID - 1`, `INTERNAL_PORT_ID - 1`, `DMZ_PORT_ID - 1`. -/
 def extPort : Nat := 0
 def intPort : Nat := 1
@@ -251,6 +274,8 @@ def fwNext (soft : Soft W) (e : FwEntry) (p : Nat) (f : Frame) (s2 : Node W) : S
   | .extIn => if inDmzNet s2 f then fwFinal soft .dmzIn s2 p f else fwFinal soft .intIn s2 p f
   | .intOut => if inDmzNet s2 f then fwFinal soft .dmzIn s2 p f else fwFinal soft .extOut s2 p f
   | .dmzOut =>
+    -- layer-2 broadcasts are never forwarded: no outbound interface is resolved (no ARP request sent) for them (C08's repair)
+    if f.dstMac == bcastMac then .done s2 else
     (soft.dmzLookup s2 p f).bind fun s3 =>
       match soft.dmzOutNic s3 f with
       | some q =>
